@@ -44,7 +44,7 @@ type c18In struct {
 	Since       int64         `json:"since"`
 	Until       int64         `json:"until"` // 0: none
 	Constraints [][][2]string `json:"constraints,omitempty"`
-	Type        string        `json:"type"` // model | test-only
+	Type        string        `json:"type"` // model | test-only | test-only-2
 	Model       string        `json:"model,omitempty"`
 	Extra       string        `json:"extra,omitempty"` // value of the extra header
 	Timestamp   int64         `json:"timestamp,omitempty"`
@@ -353,7 +353,12 @@ func c18Key1(id, account string, since, until int64, cs [][][2]string) string {
 	if id == "\x00k0" {
 		idc = "k0"
 	}
-	return "(mkKey " + idc + " " + vh.CoqBytes(account) + " " + vh.CoqZ(since) + " " + u + " " + vh.CoqList(alts) + ")"
+	// the constraints header: absent (None) or the list of its entries as written, known type or not
+	hdr := "None"
+	if len(cs) != 0 {
+		hdr = "(Some " + vh.CoqList(alts) + ")"
+	}
+	return "(mkKey " + idc + " " + vh.CoqBytes(account) + " " + vh.CoqZ(since) + " " + u + " " + hdr + ")"
 }
 
 func c18Exec(in c18In) vh.Out {
@@ -422,6 +427,8 @@ func c18Exec(in c18In) vh.Out {
 		if in.Type == "model" {
 			a, err = c18SigningDB.Sign(asserts.ModelType, map[string]interface{}{"series": "16", "brand-id": c18Authority, "model": model,
 				"architecture": "amd64", "gadget": "gadget", "kernel": "krnl", "extra": extra, "timestamp": c18Time(in.Timestamp)}, nil, "")
+		} else if in.Type == "test-only-2" {
+			a, err = c18SigningDB.Sign(asserts.TestOnly2Type, map[string]interface{}{"pk1": model, "pk2": "p2", "extra": extra}, nil, "")
 		} else {
 			a, err = c18SigningDB.Sign(asserts.TestOnlyType, map[string]interface{}{"primary-key": model, "extra": extra}, nil, "")
 		}
@@ -592,6 +599,27 @@ func c18Gen(r *vh.Rand, tier string, n int) []c18In {
 			out = append(out, i)
 		}
 	}
+	// constraints naming assertion types this snapd does not know, alone and mixed with known ones, against assertions
+	// of three types: an entry for an unknown type matches nothing, it is never dropped, and a key WITH a constraints
+	// header never becomes unconstrained
+	for _, cs := range [][][][2]string{
+		{{{"type", "future-assertion-type"}}},
+		{{{"type", "future-assertion-type"}, {"extra", "e"}}},
+		{{{"type", "future-assertion-type"}}, {{"type", "another-future-type"}}},
+		{{{"type", "future-assertion-type"}}, {{"type", "model"}}},
+		{{{"type", "model"}}, {{"type", "future-assertion-type"}}},
+		{{{"type", "future-assertion-type"}}, {{"type", "test-only"}, {"extra", "e"}}},
+		{{{"type", "future-assertion-type"}}, {{"type", "test-only-2"}, {"extra", "nope"}}},
+		{{{"type", "test-only-2"}}},
+	} {
+		for _, typ := range []string{"model", "test-only", "test-only-2"} {
+			for _, where := range []string{"trusted", "stored"} {
+				i = base()
+				i.KeyWhere, i.Constraints, i.Type = where, cs, typ
+				out = append(out, i)
+			}
+		}
+	}
 	// the SAME account-key at two revisions in two layers: the first layer (trusted < stacked top < own store) decides,
 	// whether it holds the newer or the older revision
 	for _, pair := range [][2]string{{"trusted", "stored"}, {"top", "stored"}, {"trusted", "top"}} {
@@ -678,7 +706,11 @@ func c18Gen(r *vh.Rand, tier string, n int) []c18In {
 				i.Until = 0
 			}
 			if r.Chance(1, 3) {
-				i.Constraints = [][][2]string{{{"type", r.Pick([]string{"model", "test-only"})}, {"extra", r.Pick([]string{"e", "f"})}}}
+				i.Constraints = [][][2]string{{{"type", r.Pick([]string{"model", "test-only", "future-assertion-type"})}, {"extra", r.Pick([]string{"e", "f"})}}}
+				if r.Bool() {
+					i.Constraints = append([][][2]string{{{"type", r.Pick([]string{"future-assertion-type", "test-only-2", "model"})}}}, i.Constraints...)
+				}
+				i.Type = r.Pick([]string{"model", "test-only", "test-only-2"})
 			}
 		}
 		out = append(out, i)
